@@ -205,7 +205,7 @@ CLAIMED = {
             'interval functions are enclosures; every real kernel called with an explicit directed mode '
             'honours it at its final rounding on every path (found: loggamma negated after rounding, so '
             'iv.loggamma was inverted for x < 1.46 - repaired); the cos/sin outward perturbation has the '
-            'right shape; every x + eps shortcut of the real kernels perturbs towards the sign of the neglected term (found: mpf_log near 1 - repaired); no directed kernel rounds a weakly guarded undirected intermediate (found: mpf_atan2 - repaired); interval functions outside the audited endpoint-level set remain compositions of interval operations; conversions round each endpoint outward; a packed interval is never used after one of its unpacked endpoints was recomputed (C-R9); + - * / on every combination of zero / infinite / signed endpoint classes return endpoint classes that enclose the exact range, never nan (C-R16, class interpretation); no endpoint is taken straight from a directed transcendental kernel: the kernel value goes through the outward helper, whose body is verified (C-R14, C-R19; seven genuine defects of this kind repaired; its only unwidened non-special return is the kernel\'s own directed rounding of a factorial-table entry); the corner choice of mpi_atan2 is decided over all 36 sign configurations of the box against infimum / supremum derived from the monotonicity of atan2 (C-R20, sa/atan2_corners.py); convert_mpf_ has a directed conversion for every listed kind of input incl. rationals (C-R6).  NOT decided: choice of corner / '
+            'right shape; every x + eps shortcut of the real kernels perturbs towards the sign of the neglected term (found: mpf_log near 1 - repaired); no directed kernel rounds a weakly guarded undirected intermediate (found: mpf_atan2 - repaired); interval functions outside the audited endpoint-level set remain compositions of interval operations; conversions round each endpoint outward; a packed interval is never used after one of its unpacked endpoints was recomputed (C-R9); + - * / on every combination of zero / infinite / signed endpoint classes return endpoint classes that enclose the exact range, never nan (C-R16, class interpretation); no endpoint is taken straight from a directed transcendental kernel: the kernel value goes through the outward helper, whose body is verified (C-R14, C-R19; seven genuine defects of this kind repaired; its only unwidened non-special return is the kernel\'s own directed rounding of a factorial-table entry, and a nan of the kernel is answered with -inf / +inf, C-R23); the corner choice of mpi_atan2 is decided over all 36 sign configurations of the box against infimum / supremum derived from the monotonicity of atan2 (C-R20, sa/atan2_corners.py); convert_mpf_ has a directed conversion for every listed kind of input incl. rationals (C-R6).  NOT decided: choice of corner / '
             'monotonicity region beyond the turning-point brackets (C-R17), and the accuracy of the '
             'transcendental kernels inside the 2**10-unit allowance of the outward helper.',
             'Trusts the monotonicity table (sa/iv_dir.py), the reasoned operand exemptions '
@@ -362,7 +362,7 @@ CLAIMED = {
             'precision in a finally clause; fp precision setters store nothing; clone copies every constant-initialised public '
             'setting (X-R3c); data computed in a borrowed context holds no lazy constant and the borrowed context\'s '
             'trap_complex is neutralised (X-R10, X-R11); matrix entries taken over without conversion come from a matrix of '
-            'the same context (X-R12); constants of another context are evaluated at the receiving context (X-R13), except eps, which is defined by the precision of its own context and keeps its value (X-R14; a regression of the repair behind X-R13, repaired).  '
+            'the same context (X-R12); constants of another context are evaluated at the receiving context (X-R13), except eps, which is defined by the precision of its own context and keeps its value (X-R14; a regression of the repair behind X-R13, repaired); the operator layer (binary-operator template, _cmp, mpf_convert_rhs, fsum) does not read the _mpf_ of a constant of another context (X-R15; found independently by two hunts, repaired).  '
             'That a clone computes the same values as mp is numerical and not decided.',
             'Module-level / default-argument caches are decided under C33 (D-R3).  Trusts Engine A '
             'summaries for "leaves the precision changed".',
